@@ -723,4 +723,7 @@ WITNESSES = [
     {"id": "C02.w15-src_remove-returns-at-first-empty-family", "rule": "C02.R3", "file": TP,
      "old": "\t\tpthread_rwlock_wrlock(&(pfx_table->lock));\n\t\tif (*root) {\n\t\t\tint rtval = pfx_table_remove_id(pfx_table, root, *root, socket, 0);",
      "new": "\t\tpthread_rwlock_wrlock(&(pfx_table->lock));\n\t\tif (!*root) {\n\t\t\tpthread_rwlock_unlock(&pfx_table->lock);\n\t\t\treturn PFX_SUCCESS;\n\t\t}\n\t\tif (*root) {\n\t\t\tint rtval = pfx_table_remove_id(pfx_table, root, *root, socket, 0);"},
+    {"id": "C02.w16-del_elem-shifts-from-the-end", "rule": "C02.R2", "file": TP,
+     "old": "\tif (index != data->len - 1) {\n\t\tfor (unsigned int i = index; i < data->len - 1; i++)\n\t\t\tdata->ary[i] = data->ary[i + 1];\n\t}",
+     "new": "\tfor (unsigned int i = data->len - 1; i > index; i--)\n\t\tdata->ary[i - 1] = data->ary[i];"},
 ]
